@@ -45,12 +45,12 @@ def canon_anon(s):
     return ANON.sub(ren, s) if s else s
 
 
-def compile_output(files, main, two_stage=False):
+def compile_output(files, main, two_stage=False, reset=True):
     """(diagnostics, ir_json, header) — all strings or None."""
     from compiler.util import ir_data, ir_data_utils
     from compiler.back_end.cpp import header_generator
 
-    r = emb.compile_files(files, main, gen_header=not two_stage)
+    r = emb.compile_files(files, main, gen_header=not two_stage, reset=reset)
     if r.exc:
         return ("EXCEPTION " + json.dumps(r.exc_sig, sort_keys=True), None, None)
     diag = emb.format_errors(r, files) if r.errors else ""
@@ -71,10 +71,10 @@ def compile_output(files, main, two_stage=False):
     return (diag, irj, header)
 
 
-def ir_json_of(files, main):
+def ir_json_of(files, main, reset=True):
     from compiler.util import ir_data_utils
 
-    r = emb.compile_files(files, main, gen_header=False)
+    r = emb.compile_files(files, main, gen_header=False, reset=reset)
     if r.ir is not None and not r.errors and not r.exc:
         return ir_data_utils.IrDataSerializer(r.ir).to_json()
     return None
@@ -253,11 +253,21 @@ def make_machine(sets, stats, seed):
         def __init__(self):
             super().__init__()
             self.first = {}
+            self.first_raw = {}
             self.steps = 0
 
         def _observe(self, i, how, out):
             self.steps += 1
             key = (i, how in ("two-stage",))
+            # (a) the same compilation repeated in one process - whatever was compiled in between, the
+            # compiler's own caches and counters left alone - is byte-identical, reserved names included
+            raw = (out[0], out[2])
+            prev_raw = self.first_raw.setdefault((i, how), raw)
+            if prev_raw != raw:
+                which = "diagnostics" if prev_raw[0] != raw[0] else "header"
+                d = _first_diff(prev_raw[0] or prev_raw[1] or "", raw[0] or raw[1] or "")
+                stats.fail({"kind": "repetition-dependence", "what": which, "how": how}, {"files": sets[i][0], "main": sets[i][1], "how": how, "step": self.steps}, "byte output of source set %d differs from its first compilation in this process after %d steps (%s)\nfirst: %r\nnow:   %r" % (i, self.steps, how, d[0], d[1]))
+            # (b) across routes only the numbering of reserved anonymous names may differ
             out = tuple(canon_anon(x) if isinstance(x, str) else x for x in out)
             # diagnostics and header must be identical however they were produced
             cmp_out = (out[0], out[2])
@@ -269,21 +279,21 @@ def make_machine(sets, stats, seed):
 
         @rule(i=st.integers(0, len(sets) - 1))
         def compile(self, i):
-            self._observe(i, "compile", compile_output(*sets[i]))
+            self._observe(i, "compile", compile_output(*sets[i], reset=False))
 
         @rule(i=st.integers(0, len(sets) - 1))
         def compile_reversed_file_order(self, i):
             files, main = sets[i]
             rev = dict(reversed(list(files.items())))
-            self._observe(i, "reversed-file-dict", compile_output(rev, main))
+            self._observe(i, "reversed-file-dict", compile_output(rev, main, reset=False))
 
         @rule(i=st.integers(0, len(sets) - 1))
         def two_stage(self, i):
-            self._observe(i, "two-stage", compile_output(sets[i][0], sets[i][1], two_stage=True))
+            self._observe(i, "two-stage", compile_output(sets[i][0], sets[i][1], two_stage=True, reset=False))
 
         @rule(i=st.integers(0, len(sets) - 1))
         def front_end_only_then_nothing(self, i):
-            ir_json_of(*sets[i])
+            ir_json_of(*sets[i], reset=False)
 
     return History
 
